@@ -221,13 +221,6 @@ func (h *Handler) commit() error {
 			h.tempFile.fp = nil
 		}
 
-		VerifPoint("commit.remove")
-		if Exists(h.path) {
-			if err := os.Remove(h.path); err != nil {
-				return err
-			}
-		}
-
 		VerifPoint("commit.rename")
 		if err := os.Rename(h.tempFile.path, h.path); err != nil {
 			return err
